@@ -11,6 +11,7 @@ def parseOp (tok : String) : Op :=
   | ["bX", n] => match n.toNat? with | some n => .sBegin n | none => .bad
   | ["eX", n] => match n.toNat? with | some n => .sEnd n | none => .bad
   | ["K", n] => match n.toNat? with | some n => .kill n | none => .bad
+  | ["xX", n] => match n.toNat? with | some n => .cancelHeld n | none => .bad
   | ["fX", n] => match n.toNat? with | some n => .follow n | none => .bad
   | ["cX", n] => match n.toNat? with | some n => .cancel n | none => .bad
   | ["jX", n] => match n.toNat? with | some n => .join n | none => .bad
@@ -19,7 +20,7 @@ def parseOp (tok : String) : Op :=
 
 def showOut : Out → String
   | .ok o => s!"ok:{o}" | .pre m => s!"pre{m}" | .done => "ok" | .busy => "busy" | .none => "none"
-  | .nf => "nf" | .eloop => "eloop" | .badOp => "bad-op" | .wait => "wait" | .cancelled => "cancelled"
+  | .nf => "nf" | .eloop => "eloop" | .badOp => "bad-op" | .wait => "wait" | .cancelled => "cancelled" | .failed => "failed" | .retry => "retry"
 
 def showEv : Ev → String
   | .members n => s!"{n}m" | .getHit n => s!"{n}g" | .getMiss n => s!"{n}G" | .put n => s!"{n}p" | .del n => s!"{n}d"
